@@ -62,8 +62,8 @@ def small_sp(rng, nested=True):
 class Engine(EngineBase):
     def budget(self, tier):
         if self.prop == "C02":
-            return (900, 50.0) if tier == "quick" else (40000, 900.0)
-        return (1300, 50.0) if tier == "quick" else (60000, 900.0)
+            return (2200, 55.0) if tier == "quick" else (60000, 900.0)
+        return (3200, 55.0) if tier == "quick" else (90000, 900.0)
 
     def rule(self):
         return ("seeded operation histories over a small universe (3 keys x 3 values + nested mapping/list "
@@ -199,7 +199,7 @@ class Engine(EngineBase):
 class H:
     """One live handle and what the model says it denotes."""
     __slots__ = ("obj", "proj", "sp", "group", "kind", "tainted", "refused", "caller_map", "orig_sp",
-                 "loaded", "doc_touched", "doc_dead")
+                 "loaded", "doc_touched", "doc_dead", "by_id")
 
     def __init__(self, obj, proj, sp, group, kind):
         self.obj, self.proj, self.sp, self.group, self.kind = obj, proj, norm(sp), group, kind
@@ -208,6 +208,8 @@ class H:
         self.caller_map = None
         self.orig_sp = None
         self.loaded = False
+        self.by_id = kind == "by_id"  # opened by id (or copied from such a handle): knows its state
+        # point only once it has been loaded
         self.doc_touched = False  # the handle's lazy document object exists
         self.doc_dead = False  # ... and its job directory vanished behind its back since
 
@@ -382,7 +384,7 @@ class Run:
 
     def knows_sp(self, hd):
         """A by-id handle that never loaded its state point cannot re-create a vanished job."""
-        return hd.kind != "by_id" or hd.loaded or self.job_of(hd) is not None
+        return not hd.by_id or hd.loaded or self.job_of(hd) is not None
 
     def op_init(self, op):
         hd = self.pick(op[1])
@@ -684,7 +686,7 @@ class Run:
             return None
         if hd.refused and self.prop != "C03":
             return None
-        if hd.kind == "by_id" and not hd.loaded and self.job_of(hd) is None:
+        if hd.by_id and not hd.loaded and self.job_of(hd) is None:
             return None  # a by-id handle whose job is gone cannot know its state point
         return hd
 
@@ -737,7 +739,7 @@ class Run:
             return
         upd, ow = op[2], op[3]
         conflict = any(k in hd.sp and not same(hd.sp[k], v) and hd.sp[k] != v for k, v in upd.items())
-        if hd.kind == "by_id" and not hd.loaded and self.job_of(hd) is None:
+        if hd.by_id and not hd.loaded and self.job_of(hd) is None:
             return  # statepoint() of a by-id handle whose job is gone: not part of this property
         if conflict and not ow:
             self._rekey(op, hd, hd.sp, lambda: hd.obj.update_statepoint(upd, overwrite=False),
@@ -751,7 +753,7 @@ class Run:
         hd = self._sp_handle(op)
         if hd is None:
             return
-        if hd.kind == "by_id" and not hd.loaded and self.job_of(hd) is None:
+        if hd.by_id and not hd.loaded and self.job_of(hd) is None:
             return
         src_pi, dst_pi = hd.proj, 1 - hd.proj
         jid = cid(hd.sp)
@@ -800,7 +802,7 @@ class Run:
         hd = self._sp_handle(op)
         if hd is None:
             return
-        if hd.kind == "by_id" and not hd.loaded and self.job_of(hd) is None:
+        if hd.by_id and not hd.loaded and self.job_of(hd) is None:
             return
         src_pi, dst_pi = hd.proj, 1 - hd.proj
         jid = cid(hd.sp)
@@ -882,14 +884,14 @@ class Run:
         hd = self.pick(op[1])
         if hd is None:
             return
-        if hd.kind == "by_id" and not hd.loaded and self.job_of(hd) is None:
+        if hd.by_id and not hd.loaded and self.job_of(hd) is None:
             return  # copying loads the state point, which a by-id handle of a vanished job cannot
         holder = {}
         exc, seg = self.call(lambda: holder.setdefault("j", copy.copy(hd.obj)))
         self.expect(exc, None, op, "C04")
         nh = H(holder["j"], hd.proj, hd.sp, hd.group, "copy")
         nh.tainted, nh.refused, nh.loaded = hd.tainted, hd.refused, hd.loaded
-        nh.doc_touched, nh.doc_dead = hd.doc_touched, hd.doc_dead
+        nh.doc_touched, nh.doc_dead, nh.by_id = hd.doc_touched, hd.doc_dead, hd.by_id
         hd.loaded = nh.loaded = True  # copying instantiates the shared state point
         self.handles.append(nh)
         self.probe("copy")
@@ -903,7 +905,7 @@ class Run:
         self.expect(exc, None, op, "C04")
         nh = H(holder["j"], hd.proj, hd.sp, self.new_group(), "deepcopy")
         nh.tainted, nh.loaded = hd.tainted, hd.loaded
-        nh.doc_touched, nh.doc_dead = hd.doc_touched, hd.doc_dead
+        nh.doc_touched, nh.doc_dead, nh.by_id = hd.doc_touched, hd.doc_dead, hd.by_id
         self.handles.append(nh)
         self.probe("deepcopy")
 
@@ -911,7 +913,7 @@ class Run:
         hd = self.pick(op[1])
         if hd is None or hd.refused:
             return
-        if hd.kind == "by_id" and not hd.loaded and self.job_of(hd) is None:
+        if hd.by_id and not hd.loaded and self.job_of(hd) is None:
             return
         holder = {}
         ncopies = sum(1 for x in self.handles if x.group == hd.group)
@@ -1187,7 +1189,7 @@ class Run:
                 raise Mismatch(P, "C04:handle:path", f"{tag}: path {hd.obj.path} expected {want_path}",
                                f"C04:handle:{hd.kind}:path-not-following")
             mj = self.model[hd.proj].get(jid)
-            if hd.kind == "by_id" and mj is None and not hd.loaded:
+            if hd.by_id and mj is None and not hd.loaded:
                 continue
             if not hd.loaded and self.sc.get("observe_handles", "all") == "lazy":
                 continue  # do not trigger the lazy state point load from the observer
